@@ -90,10 +90,12 @@ def same_outcome(got, want, replayed):
     if not replayed:
         return same_class and str(ge) == str(we)
     msg = str(we)
+    # (the text before the appended stack trace: the trace itself quotes the original exception and proves nothing)
+    head = lambda t: t.split(". Original stack trace follows")[0]  # noqa
     if rebuildable(we):
         # importable and constructible from one string: the replay must be of the same class
-        return same_class and (str(ge).startswith(msg) or msg.strip("'") in str(ge))
-    return isinstance(ge, MementoException) and msg.strip("'") in ge.message
+        return same_class and (str(ge).startswith(msg) or msg.strip("'") in head(str(ge)))
+    return isinstance(ge, MementoException) and msg.strip("'") in head(ge.message)
 
 
 def rebuildable(e):
